@@ -192,7 +192,7 @@ HXcreate(int32 file_id, uint16 tag, uint16 ref, const char *extern_file_name, in
 
     /* clear error stack and validate args */
     HEclear();
-    file_rec = HAatom_object(file_id);
+    file_rec = HIfid2rec(file_id);
     if (BADFREC(file_rec) || !extern_file_name || (offset < 0) || SPECIALTAG(tag) ||
         (special_tag = MKSPECIALTAG(tag)) == DFTAG_NULL)
         HGOTO_ERROR(DFE_ARGS, FAIL);
@@ -452,7 +452,7 @@ HXIstaccess(accrec_t *access_rec, int16 acc_mode)
     int32      ret_value = SUCCEED;
 
     /* get file record and validate */
-    file_rec = HAatom_object(access_rec->file_id);
+    file_rec = HIfid2rec(access_rec->file_id);
     if (BADFREC(file_rec) || !(file_rec->access & acc_mode))
         HGOTO_ERROR(DFE_ARGS, FAIL);
 
@@ -711,7 +711,7 @@ HXPwrite(accrec_t *access_rec, int32 length, const void *data)
     int32      ret_value = SUCCEED;
 
     /* convert file id to file record */
-    file_rec = HAatom_object(access_rec->file_id);
+    file_rec = HIfid2rec(access_rec->file_id);
 
     /* validate length */
     if (length < 0)
@@ -869,7 +869,7 @@ HXPendaccess(accrec_t *access_rec)
         HGOTO_ERROR(DFE_ARGS, FAIL);
 
     /* convert file id to file record */
-    file_rec = HAatom_object(access_rec->file_id);
+    file_rec = HIfid2rec(access_rec->file_id);
     if (BADFREC(file_rec))
         HGOTO_ERROR(DFE_ARGS, FAIL);
 
@@ -1014,7 +1014,7 @@ HXPreset(accrec_t *access_rec, sp_info_block_t *info_block)
         HGOTO_ERROR(DFE_INTERNAL, FAIL);
 
     /* check validity of file record */
-    file_rec = HAatom_object(access_rec->file_id);
+    file_rec = HIfid2rec(access_rec->file_id);
     if (BADFREC(file_rec))
         HGOTO_ERROR(DFE_INTERNAL, FAIL);
 
